@@ -1,4 +1,4 @@
 #!/bin/bash
 # dev helper: copy workers into scratch $1 and build
 S=${1:-/var/tmp/vs1}; export GOFLAGS=-mod=mod GOPROXY=off GOSUMDB=off GOTOOLCHAIN=local
-mkdir -p $S/repo/zzverif && cp /verif/workers/*.go $S/repo/zzverif/ && cd $S/repo && go build ${RACE:+-race} -o $S/simworker${RACE:+-race} ./zzverif
+cp /verif/scratch_extra/catalog_zz_verif_export.go $S/repo/catalog/zz_verif_export.go; mkdir -p $S/repo/zzverif && cp /verif/workers/*.go $S/repo/zzverif/ && cd $S/repo && go build ${RACE:+-race} -o $S/simworker${RACE:+-race} ./zzverif
